@@ -19,7 +19,9 @@ def classify(kf, rec):
     c = rec["case"]
     cl = kf.get("classifier")
     if cl == "ellipsis-space-creates-autolink":
-        return "'Url'" in rec["what"] and "children vs" in rec["what"]
+        t = c.get("text") or c.get("doc") or ""
+        return ("'Url'" in rec["what"] and "children vs" in rec["what"]) or \
+            ("prose differs" in rec["what"] and bool(re.search(r"\.\.\.(?:https?://|www\.)", t)))
     if cl == "ellipsis-line-start-layout":
         if "again changes" not in rec["what"] or "on" not in c or "on2" not in c:
             return False
